@@ -24,6 +24,8 @@ import (
 	"sort"
 	"strings"
 	"sync"
+	"sync/atomic"
+	"time"
 
 	"github.com/LemoFoundationLtd/lemochain-core/chain/consensus"
 	"github.com/LemoFoundationLtd/lemochain-core/chain/params"
@@ -1636,19 +1638,106 @@ func c18(c *Ctx) {
 		}
 	}
 	if c.Tier == "thorough" {
+		c18Engine(g, 60)
 		for i := 0; i < 10; i++ {
 			g.episodeSerialised(6, 60)
 		}
 		g.stress(12, 8, 1500)
-		c18Race(c) // the same stress built with -race, as a child process
+		g.hammer(1500 * time.Millisecond)
+		c18Race(c) // the same stress + hammer built with -race, as a child process
 	} else {
+		c18Engine(g, 8)
 		g.episodeSerialised(4, 40)
 		g.stress(3, 8, 400)
+		g.hammer(300 * time.Millisecond)
 	}
 }
 
-// c18stress: the goroutine stress alone (sub-command of the -race child)
+// c18stress: the goroutine stress and the drain/add hammer alone (sub-command of the -race child)
 func c18stress(c *Ctx) {
 	g := &c18gen{c: c, byHash: map[common.Hash]*ltx{}}
 	g.stress(c.N, 8, 1500)
+	g.hammer(2 * time.Second)
+}
+
+// hammer: a runtime witness for "DelTxs is ONE critical section" (delTx loop + gc): goroutine A keeps draining the
+// pool (AddTx(X); DelTxs([X]) -> the index becomes empty -> gc resets the slots), goroutine(s) B add a tx Y and
+// immediately select: an accepted tx that nobody deleted must be handed out. If gc ran in a second critical
+// section (or looked at the index outside the lock) Y would be accepted between the two and wiped by the reset.
+func (g *c18gen) hammer(d time.Duration) {
+	c := g.c
+	pool := txpool.NewTxPool()
+	x := g.plain(1 << 40)
+	const adders = 2
+	ys := make([][]*ltx, adders)
+	for w := range ys {
+		for i := 0; i < 256; i++ {
+			ys[w] = append(ys[w], g.plain(1<<40))
+		}
+	}
+	var stop int32
+	var mu sync.Mutex
+	var lost []string
+	var wg sync.WaitGroup
+	drains, adds := int64(0), int64(0)
+	wg.Add(1)
+	go func() {
+		defer wg.Done()
+		n := int64(0)
+		for atomic.LoadInt32(&stop) == 0 {
+			pool.AddTx(x.tx)
+			pool.DelTxs(types.Transactions{x.tx})
+			n++
+		}
+		atomic.AddInt64(&drains, n)
+	}()
+	for w := 0; w < adders; w++ {
+		wg.Add(1)
+		go func(w int) {
+			defer wg.Done()
+			defer func() {
+				if r := recover(); r != nil {
+					mu.Lock()
+					lost = append(lost, fmt.Sprint("panic: ", r))
+					mu.Unlock()
+				}
+			}()
+			n := int64(0)
+			for i := 0; atomic.LoadInt32(&stop) == 0; i++ {
+				y := ys[w][i%len(ys[w])]
+				if err := pool.AddTx(y.tx); err != nil {
+					mu.Lock()
+					lost = append(lost, fmt.Sprintf("AddTx(%d) refused (%v) although its owner deleted it before", y.label, err))
+					mu.Unlock()
+					pool.DelTxs(types.Transactions{y.tx})
+					continue
+				}
+				found := false
+				for _, tx := range pool.GetTxs(0, 4096) {
+					if tx != nil && tx.Hash() == y.tx.Hash() {
+						found = true
+					}
+				}
+				if !found {
+					mu.Lock()
+					if len(lost) < 5 {
+						lost = append(lost, fmt.Sprintf("tx %d was accepted by AddTx and deleted by nobody, but the GetTxs that follows does not hand it out (wiped by a concurrent DelTxs/gc)", y.label))
+					}
+					mu.Unlock()
+				}
+				pool.DelTxs(types.Transactions{y.tx})
+				n++
+			}
+			atomic.AddInt64(&adds, n)
+		}(w)
+	}
+	time.Sleep(d)
+	atomic.StoreInt32(&stop, 1)
+	wg.Wait()
+	c.Stats["hammer:drain-rounds"] += int(drains)
+	c.Stats["hammer:add-select-rounds"] += int(adds)
+	c.Count("hammer:runs")
+	for _, l := range lost {
+		c.Fail("c18/hammer/accepted-tx-lost", l, map[string]interface{}{"schedule": "A: loop{AddTx(X); DelTxs([X])}  B: loop{AddTx(Y); GetTxs; DelTxs([Y])}"})
+	}
 }
